@@ -125,7 +125,27 @@ fn item(ctx: &Ctx, i: usize, rep: &mut Report) {
     let long = long0 || n > 5000;
     let label = format!("lossy(width={},eps={},{:?},n={})", width, eps, kind, n);
     rep.config(format!("width={},eps={},{:?}", width, eps, kind));
-    let stream = gen_stream(kind, n, width, &mut r);
+    let mut stream = gen_stream(kind, n, width, &mut r);
+    if many_windows && width >= 2 && (i / 3) % 2 == 0 {
+        // a key that first appears after more than 2^16 windows and then dominates the stream:
+        // it must be reported once its share exceeds epsilon
+        let start = 66_000 * width;
+        let total = (start as f64 * 2.6) as usize;
+        stream.resize(total, 0);
+        let mut fresh = 9_000_000u64;
+        for (p, x) in stream.iter_mut().enumerate() {
+            if p < start {
+                continue;
+            }
+            if r.chance(0.92) {
+                *x = 424_242;
+            } else {
+                fresh += 1;
+                *x = fresh;
+            }
+        }
+    }
+    let n = stream.len();
     let snap0 = pdatastructs::verif::snapshot();
     // clear() somewhere in the middle (mostly NOT on a window boundary), clone-and-continue
     let clear_at: Option<usize> = if r.chance(0.3) && n > 3 { Some(1 + r.below(n as u64 - 2) as usize) } else { None };
